@@ -273,6 +273,16 @@ def witness_search(pid, unit, e, seed):
 def replay(pid, path, units):
     rec = json.load(open(path))
     u = rec["unit"]
+    if not os.path.exists(os.path.join(VERIF, "units", u + ".rs")) or str(rec.get("obligation", "")).startswith(("lean::", "table::")):
+        # a Lean / table-evaluation obligation: replay = decide the property again and look for the same obligation
+        pr = subprocess.run([os.path.join(VERIF, "check"), pid, "--tier", "quick"], capture_output=True, text=True)
+        same = rec.get("obligation", "") in pr.stdout
+        if pr.returncode == 1 and same:
+            print("VIOLATION property=%s replay=%s%s" % (pid, path, "" if (rec.get("witness") or {}).get("found") else " no-failing-input-found"))
+            print("  obligation still fails: %s" % rec["obligation"]); return 1
+        if pr.returncode == 2:
+            print("UNDECIDED property=%s replay" % pid); return 2
+        print("OK replay: obligation %s is discharged on the current tree" % rec["obligation"]); return 0
     r = R.run_unit(u, True, None, "-replay", None, 16, None, pid)
     still = [e for e in r.failures if e["obligation"] == rec["obligation"]]
     if still:
